@@ -134,6 +134,8 @@ func (g *Gen) SimpleRule(v uint8) *proto.Rule {
 		pn = "tcp"
 	case k < 6:
 		pn = "udp"
+	case k < 7 && g.Cfg.NoICMP:
+		pn = "udp"
 	case k < 7:
 		if v == 4 {
 			r.Protocol, r.IpVersion = protoName("icmp"), proto.IPVersion_IPV4
@@ -197,7 +199,7 @@ func (g *Gen) SimpleRule(v uint8) *proto.Rule {
 	if g.R.Intn(100) < 7 {
 		r.NotSrcIpSetIds = []string{uniSet()}
 	}
-	if (pn != "" || r.Protocol == nil) && g.R.Intn(100) < 10 {
+	if (pn != "" || r.Protocol == nil) && g.R.Intn(100) < 10 && !g.Cfg.NoNamedPorts {
 		id := g.newID("n:")
 		as := g.uniAddrs(v)
 		var ms []string
